@@ -177,6 +177,8 @@ def gen_case(rng: random.Random, cfg: str | None = None, max_nodes: int = 8, fra
         spec["via"] = "from_tracks"  # … or was converted from a plain Tracks object
     if rng.random() < 0.15:
         spec["time_dtype"] = rng.choice(["int64", "uint16", "uint8", "int32"])
+    if rng.random() < 0.15:
+        spec["ids_np"] = True
     if spec.get("scale") is not None and rng.random() < 0.4:
         spec["scale_type"] = rng.choice(["tuple", "ndarray", "ndarray"])
     if rng.random() < 0.2:
@@ -461,8 +463,11 @@ def gen_op(rng: random.Random, case: F.Case, tracks, kinds: list[str], always_re
         if r < 0.7:
             keys = rng.sample([F.K_SCORE, F.K_NOTE] + (case.pos_keys if case.cfg != "seg" else []),
                               rng.randint(1, 2))
-        elif r < 0.85:
+        elif r < 0.78:
             keys = [rng.choice([F.K_TIME, F.K_TID, F.K_LIN])]
+        elif r < 0.85:
+            # an ordinary key first, a protected one after it: refused as a whole, nothing written
+            keys = [rng.choice([F.K_SCORE, F.K_NOTE]), rng.choice([F.K_TIME, F.K_TID, F.K_LIN])]
         else:
             keys = [rng.choice([F.K_SCORE, F.K_AREA, F.K_POS, F.K_CIRC, F.K_IOU])]
         return {"op": "updattrs", "n": n, "attrs": {str(k): rng.randrange(100) for k in keys}}
